@@ -40,7 +40,10 @@ PROP = {
             RUN_WSSTREAM_SMALL, RUN_WSCONC_SMALL],
         # messages of 1..4 MiB under a raised maximum, sharing transport segments with small ones (Go-only oracle: the traced scripts
         # print every payload and stop at 512 KiB)
-        "direct": [{"component": "wsmsg"}],
+        "direct": [{"component": "wsmsg"},
+                   # the first messages of a second session on the same Stream, whatever the first session left behind (an open
+                   # fragmented message, a failed write, a long response head)
+                   {"component": "wshandshake", "args": ["only=second-session"], "keys": ["wshandshake.bytes-after-blank-line"], "timeout": 300}],
         "keys": ["wsmsg.*", "wshandshake.bytes-after-blank-line", "wsstream.delivery", "wsstream.violation-not-reported", "wsstream.read-after-close",
                  "wsstream.state", "wsconc.read-result-differs-from-peer-stream", "wsconc.callback-never-invoked", "wsconc.callback-twice"],
         "rule": "scripts = a session of a conforming server at message level (0-6 text/binary messages; payload sizes 0, 1, 125, 126, 127, "
